@@ -16,7 +16,8 @@ RULE = ("every forest with <= n leaves, <= g groups, depth <= d over a 9-leaf po
         "single-leaf respelling (long, partial paths, lower/UPPER case), every spacing style and single-position blank "
         "insertion, every permutation of each group's members (one group at a time) and the all-groups reversal; "
         "duplicate family: every subtree G (<= 3 leaves, depth <= 2) x every recursive reordering G' x 0-2 extra siblings "
-        "x every arrangement, at top level and nested.  distinct case = (tree, rewrite); non-trivial = rewrite text "
+        "x every arrangement, at top level and nested; reserved family: ordered pairs (thorough: triples) of 16 entries "
+        "around the reserved tags x the same order / spelling rewrites.  distinct case = (tree, rewrite); non-trivial = rewrite text "
         "differs from the original text; state = canonical tree; transition = one validation of the implementation")
 ASSUMPTIONS = [
     "only error-severity codes are compared (style warnings legitimately depend on letter case)",
@@ -281,6 +282,64 @@ def worker_trees(rec, shard, nshards, setups, bounds, seed):
                                         [r for _, r in itertools.islice(spelling_rewrites(tree), 2)]})
 
 
+def reserved_items(st):
+    """Top-level entries built around the reserved tags (as schema leaves, so every respelling applies)."""
+    m = st.model
+    if len(st.plain3) < 3 or not st.defs_ok:
+        return []
+    R, B, G = (Leaf(t) for t in st.plain3[:3])
+
+    def tag(name, suffix=""):
+        t = m.by_short.get(name.casefold())
+        return None if t is None else Leaf(t, suffix)
+    DUR, DLY, ON, OFF, IN, EC = (tag("Duration", "/3 s"), tag("Delay", "/1 s"), tag("Onset"), tag("Offset"), tag("Inset"),
+                                 tag("Event-context"))
+    DEF = Leaf(raw="Def/Pl")
+    items = [R]
+    cand = [[DUR, [R]], [B, [DUR, [R]]], [DLY, ON, DEF], [DLY, ON], [DUR, R, [B]], [DUR], [ON, DEF, [G]], [OFF, DEF],
+            [EC, [R]], [DLY, [B]], [DUR, DLY, [R]], [IN, DEF], [G, [ON, DEF]], [DLY, OFF, DEF], [B, [EC, [R]]]]
+
+    def complete(x):
+        return all(complete(y) if isinstance(y, list) else y is not None for y in x)
+    return items + [c for c in cand if complete(c)]
+
+
+def worker_reserved(rec, shard, nshards, setups, triples, seed):
+    for st in setups:
+        items = reserved_items(st)
+        bases = [list(c) for c in itertools.product(items, repeat=2)]
+        if triples:
+            bases += [list(c) for c in itertools.product(items, repeat=3)]
+        for bi in core.shard_order(len(bases), shard, nshards, seed):
+            tree = bases[bi]
+            text = render(tree)
+            try:
+                base = codes_of(st, text)
+            except Exception as e:
+                rec.violation("C04:raises:" + type(e).__name__, schema=st.label, text=text, error=repr(e)[:200])
+                continue
+            rec.n("evaluations")
+            rec.n("transitions")
+            rec.state((st.label, "reserved", hedgen.canon(tree)))
+            rec.outcome("reserved-base:" + ("valid" if not base else "+".join(sorted(set(base)))))
+            for gen in (order_rewrites, spelling_rewrites):
+                for kind, rtext in gen(tree):
+                    rec.n("evaluations")
+                    rec.n("transitions")
+                    if rtext != text:
+                        rec.n("distinct_nontrivial")
+                    try:
+                        got = codes_of(st, rtext)
+                    except Exception as e:
+                        rec.violation("C04:raises:" + type(e).__name__, schema=st.label, text=rtext, error=repr(e)[:200])
+                        continue
+                    if got != base:
+                        rec.violation(fingerprint("reserved:" + kind, base, got), schema=st.label, kind=kind, original=text,
+                                      rewrite=rtext, codes_original=base, codes_rewrite=got)
+            if bi % 499 == 3:
+                rec.sample({"schema": st.label, "reserved": text, "codes": base})
+
+
 def fingerprint(kind, base, got):
     k = kind.split("@")[0]
     diff = sorted((set(base) ^ set(got))) or ["count-only"]
@@ -372,12 +431,20 @@ def run(ctx):
     files = ["HED8.3.0.xml"] if not ctx.thorough else ["HED8.3.0.xml", "HED8.0.0.xml", "HED_testlib_2.0.0.xml",
                                                        "HED_score_2.0.0.xml"]
     setups = [c01.Setup(f) for f in files]
-    bounds = ctx.pick((3, 2, 3), (4, 3, 4))
-    ctx.rec.notes["bounds"] = {"schemas": files, "trees(n,g,d)": bounds,
+    # thorough: the deep bound on the newest standard schema, the quick bound on the other three (4,3,4 on all four is
+    # 2.6e8 validations: hours, not minutes)
+    bounds = ctx.pick((3, 2, 3), (4, 2, 3))
+    ctx.rec.notes["bounds"] = {"schemas": files, "trees(n,g,d)": {files[0]: bounds, "others": (3, 2, 3)},
                                "pool": {s.label: [repr(x) for x in make_pool(s)] for s in setups},
-                               "dup_family": "G<=3 leaves depth<=2, 0-2 extra siblings, all arrangements, top+nested"}
-    ctx.parallel(worker_trees, setups, bounds, ctx.seed)
+                               "dup_family": "G<=3 leaves depth<=2, 0-2 extra siblings, all arrangements, top+nested",
+                               "reserved_family": "ordered pairs (thorough: + triples) of 16 entries built around Duration / "
+                                                  "Delay / Onset / Offset / Inset / Event-context / Def; every one-group "
+                                                  "permutation, the reversal and every single-leaf respelling"}
+    ctx.parallel(worker_trees, setups[:1], bounds, ctx.seed)
+    if setups[1:]:
+        ctx.parallel(worker_trees, setups[1:], (3, 2, 3), ctx.seed)
     ctx.parallel(worker_dups, setups, ctx.thorough, ctx.seed)
+    ctx.parallel(worker_reserved, setups, ctx.thorough, ctx.seed)
     ctx.parallel(worker_malformed, setups, ctx.pick((2, 2, 2), (3, 2, 2)), ctx.seed)
     ctx.rec.counts["states"] = len(ctx.rec.states)
 
